@@ -87,7 +87,7 @@ def main(tier):
     run.trusted = ["callee classification table sc/panics.py (std, rust_decimal 1.43, num-complex 0.4.6): checked_*/try_* APIs and float functions do not panic",
                    "MisalignedPointer/NullPointer debug checks (unreachable in safe Rust)", "allocation failure / capacity overflow are out of scope for 256-character inputs",
                    "rust_decimal internals behind its checked_* API (e.g. Decimal::sqrt's circuit breaker)"]
-    run.assumptions = ["stack: see the thorough-tier stack bound; a 2 MiB thread stack is not covered"]
+    run.assumptions = ["stack: the bound is checked against the 8 MiB main-thread stack; the 2 MiB spawned-thread budget is a recorded known finding (dev profile)"]
     recs = None
     configs = [(None, True), (None, False)]
     if tier == "thorough":
@@ -124,8 +124,7 @@ def main(tier):
     run.coverage_extra["unclassified_callees"] = dict(unc_all)
     if unc_all:
         run.note("unclassified external callees (not an alarm; they degrade the level): %s" % dict(unc_all))
-    if tier == "thorough":
-        from ..stack import stack_bound
-        stack_bound(run)
+    from ..stack import stack_bound
+    stack_bound(run)
     return run.finish("panic-edge census (MIR asserts + may-panic callees) over every function reachable from the entry points, per configuration; obligations = (function, edge kind) groups and sort comparators; distinct = distinct groups",
                       "./check C01 --tier %s" % tier, exhaustive=(tier == "thorough"))
